@@ -31,7 +31,8 @@ fn nonassertion(rng: &mut Rng, case: u64) -> Envelope {
     }
 }
 
-pub const OPS: [&str; 35] = [
+pub const OPS: [&str; 38] = [
+    "decode_mutant", "uncompress_forged", "adopt_foreign_encrypted",
     "attachments_container_reapply", "attachments_container_extend", "add_nonassertion_envelope", "add_nonassertion_salted", "add_nonassertion_optional", "add_nonassertion_batch", "replace_with_nonassertion", "add_nonassertion_if", "add", "add_duplicate", "add_salted", "add_envelope_obscured", "remove_existing", "remove_absent", "remove_all", "replace_assertion", "replace_subject_leaf",
     "replace_subject_node", "replace_subject_obscured", "wrap", "unwrap", "elide_some", "elide_revealing", "compress", "compress_subject", "uncompress", "uncompress_subject",
     "encrypt_subject", "decrypt_subject", "add_salt", "add_signature", "add_recipient", "add_type", "add_attachment", "encode_decode",
@@ -180,6 +181,38 @@ pub fn run(ctx: &mut Ctx) {
                     "add_type" => Some(cur.add_type(small_part(rng, case))),
                     "add_attachment" => Some(cur.add_attachment(small_part(rng, case), "com.example", if rng.chance(1, 2) { Some("https://example.com/v1") } else { None })),
                     "encode_decode" => Envelope::try_from_cbor_data(env_bytes(&cur)).ok(),
+                    // whatever the decoder lets through is "emitted" too: a structurally mutated encoding of the
+                    // current envelope (Err is the expected answer; an Ok result is judged like any other)
+                    "decode_mutant" | "uncompress_forged" => {
+                        let item = crate::spec::parse_item(&env_bytes(&cur)).ok()?;
+                        let (m, _) = super::c06::structural_for_c16(&item, rng);
+                        let b = crate::spec::encode(&m);
+                        let decoded = Envelope::try_from_cbor_data(b.clone()).ok()?;
+                        let _ = bc_components::DigestProvider::digest(&decoded);
+                        if op == "decode_mutant" {
+                            Some(decoded)
+                        } else {
+                            // the same bytes as the payload of a compressed element declared under the digest
+                            // the decoder computed for them
+                            let c = bc_components::Compressed::from_uncompressed_data(b, Some(bc_components::DigestProvider::digest(&decoded).into_owned()));
+                            Envelope::try_from(c).ok()?.uncompress().ok()
+                        }
+                    }
+                    // an encrypted message that does not declare a digest (no additional data, or additional data
+                    // that is something else) is not an envelope element
+                    "adopt_foreign_encrypted" => {
+                        let aad: Option<Vec<u8>> = match rng.below(5) {
+                            0 => None,
+                            1 => Some(rng.bytes(32)),
+                            2 => Some(crate::spec::encode(&crate::spec::Item::Bytes(rng.bytes(32)))),
+                            3 => Some(crate::spec::encode(&crate::spec::Item::Text("application data".into()))),
+                            _ => Some(crate::spec::encode(&crate::spec::Item::Tag(40001, Box::new(crate::spec::Item::Bytes(rng.bytes(33)))))),
+                        };
+                        let msg = key.encrypt(env_bytes(&cur), aad, None::<bc_components::Nonce>);
+                        let adopted = Envelope::try_from(msg).ok()?;
+                        let _ = bc_components::DigestProvider::digest(&adopted);
+                        Some(adopted)
+                    }
                     _ => None,
                 }
             });
@@ -193,6 +226,9 @@ pub fn run(ctx: &mut Ctx) {
                     if op.contains("nonassertion") {
                         ctx.eval();
                         ctx.count("invalid_argument_ops_refused");
+                    } else if matches!(op, "decode_mutant" | "uncompress_forged" | "adopt_foreign_encrypted") {
+                        ctx.eval();
+                        ctx.count("hostile_material_refused");
                     } else {
                         ctx.count("op_not_applicable");
                     }
